@@ -5,11 +5,15 @@
 -/
 import Driver.Codec
 import Driver.Broker
+import Driver.Proto3
+import Driver.Stores
 open Driver
 
 structure DSt where
   codec : Codec.St := {}
   broker : BrokerD.St := {}
+  proto3 : Proto3D.St := {}
+  stores : StoresD.St := {}
 
 def dispatch (st : DSt) (line : String) : DSt × String :=
   let toks := (line.trimAscii.toString.splitOn " ").filter (· ≠ "")
@@ -20,6 +24,10 @@ def dispatch (st : DSt) (line : String) : DSt × String :=
       let (c, out) := Codec.step st.codec toks; ({ st with codec := c }, out)
     else if t.startsWith "b." then
       let (b, out) := BrokerD.step st.broker toks; ({ st with broker := b }, out)
+    else if t.startsWith "p." then
+      let (p, out) := Proto3D.step st.proto3 toks; ({ st with proto3 := p }, out)
+    else if t.startsWith "s." || t.startsWith "j." then
+      let (p, out) := StoresD.step st.stores toks; ({ st with stores := p }, out)
     else if t == "ping" then (st, "pong")
     else (st, "bad-op")
 
